@@ -158,17 +158,47 @@ def inject(r: random.Random, ast: dict, density: float) -> None:
 
 
 def literals(ast: dict) -> list[dict]:
-    """records of all Position literals with the place they stand in; names are made unique"""
+    """records of all Position literals with the place they stand in (names and values are fixed by `share_names`)"""
     recs = []
     for args, place, where, called in arglists(ast):
         for j, a in enumerate(args):
             if a["k"] == "pos":
                 recs.append({"node": a, "place": place, "in_macro": where, "called": called, "arg_index": j})
-    for i, rc in enumerate(recs):
-        base = rc["node"]["name"]
-        base = re.sub(r"#\d+$", "", base)
-        rc["node"]["name"] = f"{base}#{i}"
     return recs
+
+
+def lit_value(a: dict) -> list:
+    xr, xo = surface.pos_arg(a["x"])
+    yr, yo = surface.pos_arg(a["y"])
+    return [a["name"], xo, yo, xr, yr]
+
+
+def share_names(r: random.Random, ast: dict) -> None:
+    """Names: about half of the literals of a file draw their name from a small per-file pool (so several literals share a
+    name, the empty name included, in the same argument list, in different statements, in routine and macro body, spelled with
+    the same or the other quote style, i.e. with or without escapes); the others get a name of their own.  Whatever the names,
+    the VALUE (name, offsets, tiles) of every literal of a file is unique - the y coordinate is re-drawn until it is - so that a
+    compiled parameter can be traced back to its literal by value while same-named literals differ in their coordinates."""
+    recs = literals(ast)
+    pool = r.sample(NAME_BASES, r.choice([1, 2, 3]))
+    if r.random() < 0.5 and "" not in pool:
+        pool.append("")
+    seen: set = set()
+    for i, rc in enumerate(recs):
+        a = rc["node"]
+        base = re.sub(r"#\d+$", "", a["name"])
+        if r.random() < 0.55:
+            a["name"] = r.choice(pool)
+            if r.random() < 0.3:
+                a["quote"] = r.choice(["'", '"'])
+        else:
+            a["name"] = f"{base}#{i}"
+        tries = 0
+        while tuple(lit_value(a)) in seen:
+            tries += 1
+            v = 300 + 7 * i + tries
+            a["y"] = r.choice([str(v), hex(v), "0o%o" % v, "0b" + bin(v)[2:], f"{v}.5", f"{v}.0", f"-{v}", f"-{v}.5", f"00{v}.50"])
+        seen.add(tuple(lit_value(a)))
 
 
 def instances(ast: dict) -> dict:
@@ -229,6 +259,7 @@ def gen_case(rng: random.Random, cfgs: list, i: int) -> dict:
         add_macros(g, ast)
         nest_macros(r, g, ast)
     inject(r, ast, r.choice([0.2, 0.4, 0.7]))
+    share_names(r, ast)
     return {"ast": ast, "style": r.choice(["random", "random", "random", "dense", "canonical"]), "ls": r.getrandbits(30), "stats": g.stats}
 
 
@@ -243,9 +274,7 @@ def render(ast: dict, style: str, ls: int) -> dict:
     for rc in ordered:
         p = pos[("pos", id(rc["node"]))]
         rc["start"], rc["end"] = list(p["start"]), list(p["end"])
-        xr, xo = surface.pos_arg(rc["node"]["x"])
-        yr, yo = surface.pos_arg(rc["node"]["y"])
-        rc["value"] = [rc["node"]["name"], xo, yo, xr, yr]
+        rc["value"] = lit_value(rc["node"])
         rc["copies"] = expected_copies(ast, rc)
     return {"text": text, "lits": ordered}
 
@@ -298,33 +327,36 @@ def oracle_listing(text: str, lits: list[dict], out: dict) -> list[tuple[str, st
         return [(kind, f"the source parses but the listing raises {lst['error']}: {lst.get('msg', '')[:120]} at {lst.get('site')}")]
     marks = lst["marks"]
     if len(marks) != len(lits):
-        got = {m[4] for m in marks}
-        missing = [l for l in lits if l["value"][0] not in got]
+        got = {tuple(m[4:]) for m in marks}
+        missing = [l for l in lits if tuple(l["value"]) not in got]
         where = shape(text, missing[0]) if missing else "extra_entries"
         bad.append((f"listing_count_{where}", f"{len(lits)} Position literals in the source, the listing has {len(marks)} entries; missing names {[l['value'][0] for l in missing][:4]}"))
         return bad
     for i, (m, l) in enumerate(zip(marks, lits)):
         if m[4:] != l["value"]:
-            bad.append((f"listing_fields_{shape(text, l)}", f"entry {i}: listing says {m[4:]}, the literal is {l['value']} (spelled x={l['node']['x']} y={l['node']['y']})"))
+            shared = "shared_name_" if sum(1 for k in lits if k["value"][0] == l["value"][0]) > 1 else ""
+            bad.append((f"listing_fields_{shared}{shape(text, l)}", f"entry {i}: listing says {m[4:]}, the literal is {l['value']} (spelled x={l['node']['x']} y={l['node']['y']})"))
         elif m[0:2] != l["start"]:
             bad.append((f"listing_start_{shape(text, l)}", f"entry {i} ({l['value'][0]!r}): start {m[0:2]}, the word Position is at {l['start']}"))
         elif m[2:4] != l["end"]:
             bad.append((f"listing_end_{shape(text, l)}", f"entry {i} ({l['value'][0]!r}): end {m[2:4]}, the closing '>' is at {l['end']}"))
     comp = out["compiled"]
     if "error" not in comp:
-        by_name: dict[str, list] = {}
-        for pm in pm_params(comp):
-            by_name.setdefault(pm[0], []).append(pm)
-        names = {l["value"][0] for l in lits}
-        for nm in by_name:
-            if nm not in names:
-                bad.append(("compiled_param_without_literal", f"compiled position-mark parameter named {nm!r} belongs to no literal"))
+        # a compiled parameter belongs to the literal with the same value (values are unique per file, names are not)
+        compiled = [tuple(pm) for pm in pm_params(comp)]
+        values = {tuple(l["value"]) for l in lits}
+        for pm in compiled:
+            if pm not in values:
+                bad.append(("compiled_param_without_literal", f"compiled position-mark parameter {list(pm)} equals no literal of the source"))
         for i, (m, l) in enumerate(zip(marks, lits)):
-            got = by_name.get(l["value"][0], [])
-            if any(pm != m[4:] for pm in got):
-                bad.append((f"listing_vs_compiled_{shape(text, l)}", f"entry {i}: listing {m[4:]}, compiled parameter {got[0]}"))
-            elif l["copies"] is not None and l["copies"] >= 0 and len(got) != l["copies"]:
-                bad.append((f"compiled_copies_{shape(text, l)}", f"literal {l['value'][0]!r}: {len(got)} compiled parameters, expected {l['copies']}"))
+            n_lit = compiled.count(tuple(l["value"]))
+            n_lst = compiled.count(tuple(m[4:]))
+            if l["copies"] is not None and l["copies"] >= 0 and n_lit != l["copies"]:
+                bad.append((f"compiled_copies_{shape(text, l)}", f"literal {i} {l['value']}: {n_lit} compiled parameters with its value, expected {l['copies']}"))
+            elif n_lst != n_lit:
+                same_name = sum(1 for k in lits if k["value"][0] == l["value"][0]) > 1
+                bad.append((f"listing_vs_compiled_{'shared_name_' if same_name else ''}{shape(text, l)}",
+                            f"entry {i}: the listing says {m[4:]}, the compiler produced {l['value']} for that literal"))
     return bad
 
 
@@ -343,11 +375,12 @@ def make_edits(r: random.Random, lits: list[dict], marks: list, n: int) -> list[
     return out
 
 
-def replace_params(res: dict, name: str, mark: list) -> list:
+def replace_params(res: dict, value: list, mark: list) -> list:
+    """the compiled program with every parameter that stems from the literal of value `value` replaced by `mark`"""
     ops = copy.deepcopy(res["ops"])
     for rt in ops:
         for op in rt:
-            op["params"] = [{"pm": list(mark)} if isinstance(p, dict) and p.get("pm", [None])[0] == name else p for p in op["params"]]
+            op["params"] = [{"pm": list(mark)} if isinstance(p, dict) and p.get("pm") == list(value) else p for p in op["params"]]
     return ops
 
 
@@ -366,7 +399,7 @@ def oracle_splice(text: str, lits: list[dict], out: dict, edits: list[dict], sp:
         if "error" in c2:
             bad.append((f"splice_rejected_{sh}", f"after replacing entry {e['index']} by {r['printed']} the text no longer compiles: {c2['error']}: {c2.get('msg', '')[:120]}"))
             continue
-        exp_ops = replace_params(comp, l["value"][0], e["mark"])
+        exp_ops = replace_params(comp, l["value"], e["mark"])
         if c2["ops"] != exp_ops:
             def classify_diff() -> str:
                 """the differences sit only in parameters that stem from the edited literal -> param wrong (which field)"""
